@@ -203,6 +203,10 @@ func RunCheck(cfg CheckConfig) (int, error) {
 		path := writeReplay(cfg, fmt.Sprintf("%s-corr-%d.json", cfg.Prop, t.H.Seed), replayFile{Property: cfg.Prop, Kind: "correspondence",
 			What: what, Seed: t.H.Seed, Ops: min, Lines: tt.Lines, Impl: obsOf(tt.Impl), Model: m})
 		res.Violate(hx.Violation{Kind: "correspondence", Key: "app-model", What: what, Replay: path})
+		// the shortened history is one the implementation went through as well: the monitors below judge it too
+		if dd >= 0 && len(min) < len(t.H.Ops) {
+			traces = append(traces, RunImpl(u, &History{Seed: t.H.Seed, N: t.H.N, Ops: min}))
+		}
 		break
 	}
 	// property-specific monitors on the implementation
